@@ -85,6 +85,7 @@ func (publisherSelf *PublisherDef[T]) Publish(result T) {
 	})
 
 	for _, s := range subscribers {
+		s := s // the callback may run later on the Handler: do not share the loop variable
 		if s.OnNext != nil {
 
 			doSub := func() {
